@@ -247,3 +247,24 @@ func writeVectors(repoRoot, srcRoot, verifRoot string, pinned map[string]string,
 	}
 	return stale
 }
+
+// ---------------- KZG ----------------
+
+func kzgPkgs(srcRoot string) []string { return globPkgs(srcRoot, "ecc/*/kzg") }
+
+func writeKzg(repoRoot, srcRoot, verifRoot string, check bool) int {
+	b, err := os.ReadFile(filepath.Join(verifRoot, "contracts", "kzg", "kzg.go.tmpl"))
+	if err != nil {
+		return 0
+	}
+	stale := 0
+	for _, p := range kzgPkgs(srcRoot) {
+		rel := strings.TrimPrefix(p, "./")
+		src, _ := os.ReadFile(filepath.Join(srcRoot, filepath.Dir(rel), "g1.go"))
+		pkg := ""
+		fmt.Sscanf(after(string(src), "\npackage "), "%s", &pkg)
+		s := strings.ReplaceAll(string(b), "CURVEPKG", pkg)
+		stale += installText(filepath.Join(repoRoot, rel, "zz_verif_contracts_kzg.go"), s, check)
+	}
+	return stale
+}
